@@ -1,2 +1,42 @@
-(* C19 -- placeholder *)
-Theorem C19_placeholder : True. Proof. exact I. Qed.
+(* C19 -- with a proxy configured, nothing is sent to the target before the tunnel is up.  Statements only. *)
+From Coq Require Import String.
+From Coq Require Import List NArith.
+From Coq.Strings Require Import Byte.
+From Model Require Import Bytes Parser Response Conn Proxy.
+From Proofs Require Import ParserFacts ProxyFacts.
+Import ListNotations.
+Open Scope N_scope.
+
+(* the negotiation loop (recv / ProxyParser.feed until a response is yielded) gives the same outcome for every way
+   of cutting the proxy's answer into non-empty reads, whatever follows (EOF, socket error, silence) *)
+Theorem C19_reply_segmentation : forall ds ds' tail,
+  Forall (fun d => d <> []) ds -> Forall (fun d => d <> []) ds' -> concat ds = concat ds' ->
+  negotiate (map RData ds ++ tail) px_init = negotiate (map RData ds' ++ tail) px_init.
+Proof. exact negotiate_segmentation. Qed.
+Print Assumptions C19_reply_segmentation.
+
+(* the parser coroutine yields a response -- the only way out of the loop that leads to Connected and to the upgrade
+   request being written -- only for a header block whose status code parses to 200 *)
+Theorem C19_tunnel_only_on_200 : forall buf x g a n,
+  px_resume tt buf = RItem x g a n -> r_status (parse_response buf) = Some 200.
+Proof. exact tunnel_only_on_200. Qed.
+Print Assumptions C19_tunnel_only_on_200.
+
+Theorem C19_tunnel_needs_complete_block : forall script s, px_ok s -> negotiate script s = PxTunnel ->
+  exists d s1 x s2 r, In (RData d) script /\ px_pull s1 d = Item x s2 r.
+Proof. exact negotiate_tunnel_needs_item. Qed.
+Print Assumptions C19_tunnel_needs_complete_block.
+
+(* an unterminated, empty or failing answer never opens the tunnel *)
+Example C19_failures :
+  negotiate [REof] px_init = PxFail /\ negotiate [RData (str "HTTP/1.1 200 OK"%string); REof] px_init = PxFail /\
+  negotiate [ROSErr] px_init = PxFail /\
+  negotiate [RData (str "HTTP/1.1 407 Auth"%string ++ CRLFCRLF)] px_init = PxFail /\
+  negotiate [RData (str "HTTP/1.1 200 OK"%string ++ CRLF); RData CRLF] px_init = PxTunnel.
+Proof. vm_compute. repeat split; reflexivity. Qed.
+
+(* proxy selection: 'https' entry for wss, 'http' entry for ws; an empty entry means no proxy *)
+Example C19_pick : forall h s, pick_proxy false (Some h) s = (match h with [] => None | _ => Some h end)
+                            /\ pick_proxy true s (Some h) = (match h with [] => None | _ => Some h end)
+                            /\ pick_proxy false None s = None /\ pick_proxy true s None = None.
+Proof. intros [|b h] s; repeat split; reflexivity. Qed.
